@@ -18,6 +18,11 @@ Helper developments: `Lemmas/SortKahn.lean` (the loop), `Lemmas/SortTree.lean` (
 `Lemmas/SortPos.lean` (positions vs ids), `Lemmas/SortStable.lean` (stability; defines `WellScoped`,
 `OrderedG`), `Lemmas/SortAcyclic.lean` (ordered => acyclic), `Lemmas/SortRename.lean` (renaming), `Lemmas/SortLifted.lean` (flat cycle => per-graph cycle), `Lemmas/SortLinked.lean` (C11 container),
 `Lemmas/SortState.lean` (worlds), `Lemmas/SortIds.lean` (identity-keyed loop).
+Part G/H: `heapq` (`Model/Heap.lean`): `C12_heappop_min_partial`; round 5: `C12_heap_invariant` (heapify establishes,
+heappush / heappop preserve the heap invariant and the multiset of keys), `C12_heap_extract_min`,
+`C12_heap_refines_queue`, `C12_heap_pops_increasing`; the Kahn loop on the real binary heap (`Model/SortHeap.lean`)
+pops the same nodes as the `maxKey` loop: `C12_heap_kahn_refines`, `C12_heap_sort_refines`
+(`Lemmas/Heap.lean`, `Lemmas/SortHeap.lean`).
 -/
 import IrVerif.Lemmas.SortAcyclic
 import IrVerif.Lemmas.SortRename
@@ -28,6 +33,9 @@ import IrVerif.Lemmas.SortState
 import IrVerif.Lemmas.SortIds
 import IrVerif.Lemmas.SortFull
 import IrVerif.Model.Heap
+import IrVerif.Lemmas.Heap
+import IrVerif.Lemmas.SortHeap
+import IrVerif.Lemmas.SortPass
 import Mathlib.Data.List.Forall2
 
 namespace IrVerif.Sort
@@ -1215,6 +1223,276 @@ theorem C12_heappop_min_partial (h : List Nat) (hh : Heap.isHeap h = true) (hne 
       | none => simp at hl
       | some last => simp
 
+/-! ## Part H — `heapq` re-establishes its invariant; `Graph.sort`'s loop on the real binary heap (round 5)
+
+This supersedes the PARTIAL status of `C12_heappop_min_partial`: its hypothesis (the heap invariant) is now proved to
+hold after every operation `Graph.sort` performs on the queue. -/
+
+/-- **C12_heap_invariant**: for the transcription of CPython's heapq.py (`_siftdown`, `_siftup` as they are: the
+    smaller child is moved up until a leaf is reached, then the new item is bubbled up): `heapify` of ANY list
+    establishes the heap invariant; `heappush` and `heappop` on a list satisfying it re-establish it; and each of them
+    keeps the multiset of keys (`heapify x ~ x`, `heappush h x ~ x :: h`, `h ~ popped :: rest`). -/
+theorem C12_heap_invariant :
+    (∀ x : List Nat, Heap.isHeap (Heap.heapify x) = true ∧ (Heap.heapify x).Perm x) ∧
+    (∀ (h : List Nat) (x : Nat), Heap.isHeap h = true →
+      Heap.isHeap (Heap.heappush h x) = true ∧ (Heap.heappush h x).Perm (x :: h)) ∧
+    (∀ h : List Nat, Heap.isHeap h = true → h ≠ [] →
+      ∃ m, (Heap.heappop h).1 = some m ∧ Heap.isHeap (Heap.heappop h).2 = true ∧
+        h.Perm (m :: (Heap.heappop h).2)) := by
+  refine ⟨fun x => ?_, fun h x hh => ?_, fun h hh hne => ?_⟩
+  · have hs := Heap.heapify_spec x
+    exact ⟨(Heap.isHeap_iff _).2 hs.1, List.perm_iff_count.2 hs.2.1⟩
+  · have hs := Heap.heappush_spec x ((Heap.isHeap_iff _).1 hh)
+    exact ⟨(Heap.isHeap_iff _).2 hs.1, List.perm_iff_count.2 hs.2.1⟩
+  · obtain ⟨m, h1, h2, h3⟩ := Heap.heappop_spec ((Heap.isHeap_iff _).1 hh) hne
+    exact ⟨m, h1, (Heap.isHeap_iff _).2 h2, (List.perm_iff_count.2 h3).symm⟩
+
+/-- **C12_heap_refines_queue**: a list satisfying the heap invariant answers every sequence of `heappush` /
+    `heappop` exactly as the abstract priority queue holding the same keys does (`absPop`: remove one smallest key;
+    `none` = IndexError on the empty queue).  Keys need not be distinct. -/
+theorem C12_heap_refines_queue (h q : List Nat) (hh : Heap.isHeap h = true) (hp : h.Perm q)
+    (ops : List (Option Nat)) : Heap.runHeap h ops = Heap.runAbs q ops :=
+  Heap.run_refines ops h q ((Heap.isHeap_iff _).1 hh) (List.perm_iff_count.1 hp)
+
+/-- **C12_heap_extract_min**: after `heapify(init)`, any sequence of pushes and pops returns, at every pop, the
+    smallest of the keys present at that moment (those of `init` and of the pushes so far that were not popped yet). -/
+theorem C12_heap_extract_min (init : List Nat) (ops : List (Option Nat)) :
+    Heap.runHeap (Heap.heapify init) ops = Heap.runAbs init ops :=
+  C12_heap_refines_queue _ _ (C12_heap_invariant.1 init).1 (C12_heap_invariant.1 init).2 ops
+
+/-- **C12_heap_pops_increasing**: popping `k <= len(init)` times after `heapify(init)` returns keys of `init` in
+    increasing order (never IndexError). -/
+theorem C12_heap_pops_increasing (init : List Nat) (k : Nat) (hk : k ≤ init.length) :
+    ∃ l : List Nat, Heap.runHeap (Heap.heapify init) (List.replicate k none) = l.map some ∧
+      l.Pairwise (· ≤ ·) ∧ (∀ x ∈ l, x ∈ init) ∧ l.length = k := by
+  rw [C12_heap_extract_min]
+  exact Heap.runAbs_pops k init hk
+
+/-- **C12_heap_kahn_refines**: steps 1-4 of `Graph.sort` with the priority queue as it is in the code -- a list under
+    `heapq.heapify` / `heappop` / `heappush` (`Model/SortHeap.lean`) -- and with the queue of `Model/SortIds.lean`
+    (`maxKey`: 'the entry with the largest position') pop the same nodes in the same order, leave the same counters
+    and give the same result, for EVERY graph tree (also with a Graph object shared by two attributes).  That
+    `heappop` returns the queued node with the largest position is thereby derived from the transcribed sift
+    operations instead of being assumed. -/
+theorem C12_heap_kahn_refines (g : MGraph) :
+    (kahnHeap (nodesOf g)).sorted = (kahnIds (nodesOf g)).sorted ∧
+    (kahnHeap (nodesOf g)).depth = (kahnIds (nodesOf g)).depth ∧
+    Heap.isHeap (kahnHeap (nodesOf g)).heap = true ∧
+    sortHeap g = sortIds g := by
+  have sim := kahnHeap_sim (nodesOf g)
+  exact ⟨sim.sorted.symm, sim.depth.symm, (Heap.isHeap_iff _).2 sim.heap, sortHeap_eq_sortIds g⟩
+
+/-- **C12_heap_sort_refines**: on a well-formed tree the sort on the real binary heap is `sortModel`: every
+    `C12_*` theorem about `sortModel` (permutation, producers first, cycle iff raise, fixpoint, determinism) is a
+    theorem about the loop that uses `heapq`. -/
+theorem C12_heap_sort_refines (g : MGraph) (hwf : WF g) : sortHeap g = sortModel g :=
+  (C12_heap_kahn_refines g).2.2.2.trans (C12_ids_refines g hwf)
+
+/-! ## Part I — the full pass refines the container-level pass; a successful pass leaves every graph-like sorted (round 5) -/
+
+theorem FOut.toS_ok {o : FOut} {x : SOut} (h : o.toS = some x) :
+    (o = .ok ↔ x = .ok) ∧ (o = .valueError ↔ x = .valueError) ∧ o ≠ .late ∧ o ≠ .assertionError ∧ o ≠ .refused := by
+  cases o <;> cases x <;> simp_all [FOut.toS]
+
+theorem passSortsF_refines : ∀ (roots : List (Nat × List Nat)) (w : FWorld), passConsB w roots = true →
+    (passSortsF w roots).world.sw = applyWrites w.sw (passSortsF w roots).trace ∧
+    (((passSortsF w roots).out.toS = some (passSortsW w.sw roots).out ∧
+        (passSortsF w roots).world.sw = (passSortsW w.sw roots).world ∧
+        (passSortsF w roots).trace = (passSortsW w.sw roots).trace) ∨
+     ((passSortsF w roots).out = .refused ∧ (passSortsF w roots).trace <+: (passSortsW w.sw roots).trace)) := by
+  intro roots
+  induction roots with
+  | nil => intro w _; exact ⟨rfl, Or.inl ⟨rfl, rfl, rfl⟩⟩
+  | cons p rest ih =>
+    intro w hc
+    obtain ⟨g, ord⟩ := p
+    simp only [passConsB, Bool.and_eq_true] at hc
+    obtain ⟨hc1, hc2⟩ := hc
+    have hcons : ∀ t, unfoldG w.sw w.sw.fuel g = some t → Consistent w (nodesOf t) := by
+      intro t ht; rw [ht] at hc1; exact of_decide_eq_true hc1
+    have hfr := C12_full_refines_state w ord g hcons
+    have hsp := sortF_spec w ord g
+    simp only [passSortsF, passSortsW]
+    rcases hfr with ⟨hF, hW⟩ | ⟨hto, hwd, htr⟩
+    · have hne : (sortF w ord g).out ≠ .ok := by rw [hF]; decide
+      have htr0 := (hsp.2.2.1 hne).1
+      simp only [hne, if_false, hW, if_true]
+      exact ⟨hsp.2.2.2, Or.inr ⟨hF, by rw [htr0]; exact List.nil_prefix⟩⟩
+    · by_cases hok : (sortF w ord g).out = .ok
+      · have hokW : (sortW w.sw ord g).out = .ok := (FOut.toS_ok hto).1.1 hok
+        simp only [hok, if_true, hokW]
+        rw [hok] at hc2
+        simp only [if_true] at hc2
+        obtain ⟨i1, i2⟩ := ih (sortF w ord g).world hc2
+        rw [hwd] at i2
+        refine ⟨?_, ?_⟩
+        · rw [i1, hsp.2.2.2, applyWrites_append]
+        · rcases i2 with ⟨a, b, c⟩ | ⟨a, b⟩
+          · exact Or.inl ⟨a, b, by rw [htr, c]⟩
+          · exact Or.inr ⟨a, by rw [htr]; exact (List.prefix_append_right_inj _).2 b⟩
+      · have hokW : (sortW w.sw ord g).out ≠ .ok := fun h => hok ((FOut.toS_ok hto).1.2 h)
+        simp only [hok, if_false, hokW]
+        exact ⟨hsp.2.2.2, Or.inl ⟨hto, hwd, htr⟩⟩
+
+/-- **C12_passF_refines_passW**: `TopologicalSortPass.call` on the full world (`passF`: `Graph.extend` with its checks
+    and naming, also in the restore loop) against the container-level pass (`passW`, the subject of
+    `C12_state_pass_atomic`), for ANY world and history in which, at each sort the pass performs, `node.graph` names the
+    listing container (`passConsB`, decidable, evaluated per replayed pass).  Whatever happens: no check or setter
+    raises after a write inside a sort, no assertion fails, the containers are exactly the result of the recorded
+    writes, and those writes are a PREFIX of `passW`'s; unless the pass is refused (a node that cannot be re-added, in a
+    sort or in the restore loop - observations D391 / finding D392) the two passes end alike: same outcome, same
+    writes, same containers.  Hence `C12_state_pass_atomic` speaks about the containers of the full pass.
+    (Until this round that was compared per replayed pass only.) -/
+theorem C12_passF_refines_passW (w : FWorld) (roots : List (Nat × List Nat)) (gls : List Nat)
+    (hgl : graphLikes w.sw (roots.map Prod.fst) = some gls) (hc : passConsB w roots = true) :
+    (passF w roots).out ≠ .late ∧ (passF w roots).out ≠ .assertionError ∧
+    (passF w roots).world.sw = applyWrites w.sw (passF w roots).trace ∧
+    (passF w roots).trace <+: (passW w.sw roots gls).trace ∧
+    ((passF w roots).out ≠ .refused →
+      (passF w roots).out.toS = some (passW w.sw roots gls).out ∧
+      (passF w roots).world.sw = (passW w.sw roots gls).world ∧
+      (passF w roots).trace = (passW w.sw roots gls).trace) := by
+  obtain ⟨a1, a2⟩ := passSortsF_refines roots w hc
+  unfold passF passW
+  simp only [hgl]
+  by_cases hv : (passSortsF w roots).out = .valueError
+  · rcases a2 with ⟨hto, hwd, htr⟩ | ⟨hr, _⟩
+    · have hvW : (passSortsW w.sw roots).out = .valueError := (FOut.toS_ok hto).2.1.1 hv
+      obtain ⟨g1, g2, g3⟩ := writeAll_gen (passSortsF w roots).world (gls.map (fun k => (k, w.sw.order k)))
+      simp only [hv, if_true, hvW]
+      refine ⟨by split <;> simp, by split <;> simp, ?_, ?_, ?_⟩
+      · rw [g2, a1, applyWrites_append]
+      · rw [htr]; exact (List.prefix_append_right_inj _).2 g1
+      · intro hnr
+        have hl : (writeAll (passSortsF w roots).world (gls.map (fun k => (k, w.sw.order k)))).late = false := by
+          cases h : (writeAll (passSortsF w roots).world (gls.map (fun k => (k, w.sw.order k)))).late with
+          | false => rfl
+          | true => rw [h] at hnr; simp at hnr
+        have g3' := g3 hl
+        simp only [hl, Bool.false_eq_true, if_false]
+        refine ⟨rfl, ?_, by rw [g3', htr]⟩
+        rw [g2, g3', hwd]
+    · rw [hv] at hr; cases hr
+  · simp only [hv, if_false]
+    rcases a2 with ⟨hto, hwd, htr⟩ | ⟨hr, hpre⟩
+    · have hvW : (passSortsW w.sw roots).out ≠ .valueError := fun h => hv ((FOut.toS_ok hto).2.1.2 h)
+      simp only [hvW, if_false]
+      exact ⟨(FOut.toS_ok hto).2.2.1, (FOut.toS_ok hto).2.2.2.1, a1, by rw [htr]; exact List.prefix_refl _,
+        fun _ => ⟨hto, hwd, htr⟩⟩
+    · refine ⟨by rw [hr]; decide, by rw [hr]; decide, a1, ?_, fun h => absurd hr h⟩
+      split
+      · exact hpre.trans (List.prefix_append _ _)
+      · exact hpre
+
+theorem sortW_world (w : SWorld) (order : List Nat) (g : Nat) :
+    (sortW w order g).world = applyWrites w (sortW w order g).trace := by
+  unfold sortW
+  split
+  · rfl
+  · simp only
+    split
+    · rfl
+    split <;> rfl
+
+theorem passSortsW_world : ∀ (roots : List (Nat × List Nat)) (w : SWorld),
+    (passSortsW w roots).world = applyWrites w (passSortsW w roots).trace := by
+  intro roots
+  induction roots with
+  | nil => intro w; rfl
+  | cons p rest ih =>
+    intro w
+    simp only [passSortsW]
+    split
+    · simp only; rw [ih, applyWrites_append, ← sortW_world]
+    · exact sortW_world w p.2 p.1
+
+/-- what `C12_pass_success_sorted` concludes, graph-like by graph-like in the order the pass sorts them: the tree the
+    sort read, `sortModel`'s result for it, and every graph of the tree holds its entry of that result in the FINAL
+    world `fin` -/
+def PassSorted (fin : SWorld) : SWorld → List (Nat × List Nat) → Prop
+  | _, [] => True
+  | w, p :: rest =>
+    (∃ t res, unfoldG w w.fuel p.1 = some t ∧ WF t ∧ sortModel t = some res ∧
+      ∀ k new, (k, new) ∈ res → fin.order k = new) ∧
+    PassSorted fin (sortW w p.2 p.1).world rest
+
+theorem pass_sorted_aux : ∀ (roots : List (Nat × List Nat)) (w : SWorld), LinkedSet.WorldWF w.rw →
+    PassHyp w roots → passDisjB w roots = true → (passSortsW w roots).out = .ok →
+    PassSorted (passSortsW w roots).world w roots := by
+  intro roots
+  induction roots with
+  | nil => intro w _ _ _ _; trivial
+  | cons p rest ih =>
+    intro w hw hyp hdj hout
+    obtain ⟨g, ord⟩ := p
+    have hok1 : (sortW w ord g).out = .ok := by
+      apply Classical.byContradiction; intro hn
+      simp only [passSortsW, hn, if_false] at hout
+    simp only [passSortsW, hok1, if_true] at hout ⊢
+    simp only [PassHyp] at hyp
+    obtain ⟨⟨t, hu, hwf, hperm⟩, hrest⟩ := hyp hok1
+    simp only [passDisjB, hu, Bool.and_eq_true] at hdj
+    obtain ⟨hd1, hd2⟩ := hdj
+    obtain ⟨s1, _, _, s4⟩ := C12_state_sort w hw ord g t hu hwf hperm
+    cases hm : sortModel t with
+    | none =>
+      rw [hm] at s4; simp only at s4
+      rw [s4.1] at hok1; cases hok1
+    | some res =>
+      rw [hm] at s4; simp only at s4
+      obtain ⟨_, _, _, s44, _⟩ := s4
+      refine ⟨⟨t, res, hu, hwf, hm, ?_⟩, ih (sortW w ord g).world s1 hrest hd2 hout⟩
+      intro k new hk
+      rw [← s44 k new hk]
+      have hkg : k ∈ (allGraphs t).map Prod.fst := by
+        rw [(sortModel_some hm).2] at hk
+        simp only [graphsOf, List.map_map, List.mem_map] at hk
+        obtain ⟨h, hh, he⟩ := hk
+        have : k = h.1 := by simpa [orderOf] using (congrArg Prod.fst he).symm
+        rw [this]; exact List.mem_map_of_mem hh
+      have hnot : k ∉ (passSortsW (sortW w ord g).world rest).trace.map Prod.fst := by
+        intro hmem
+        obtain ⟨q, hq, rfl⟩ := List.mem_map.1 hmem
+        have := List.all_eq_true.1 hd1 q hq
+        simp only [Bool.not_eq_true', List.contains_eq_mem, decide_eq_false_iff_not] at this
+        exact this hkg
+      unfold SWorld.order
+      rw [passSortsW_world rest, applyWrites_setOf_other _ _ k hnot]
+
+/-- **C12_pass_success_sorted**: when `TopologicalSortPass.call` succeeds on the stateful world (containers at pointer
+    level, arbitrary histories), the restore loop is not executed and EVERY graph-like is sorted at the END of the pass,
+    not only at the time of its own sort: for the main graph and each function, in the order they are sorted, the tree
+    that sort read is well formed, `sortModel` succeeds on it, and every graph of that tree holds in the final world
+    exactly its entry of `sortModel`'s result (for which `C12_perm`, `C12_respects`, `C12_fixpoint` hold).
+    Hypotheses, both decidable and evaluated per replayed pass: `PassHyp` (as `C12_state_pass_atomic`) and `passDisjB`:
+    no later sort of the pass writes a container of an earlier graph-like's tree (the graph-likes of a model are
+    disjoint trees). -/
+theorem C12_pass_success_sorted (w : SWorld) (hw : LinkedSet.WorldWF w.rw)
+    (roots : List (Nat × List Nat)) (gls : List Nat) (hyp : PassHyp w roots) (hdj : passDisjB w roots = true)
+    (hok : (passW w roots gls).out = .ok) :
+    (passW w roots gls).world = (passSortsW w roots).world ∧
+    PassSorted (passW w roots gls).world w roots := by
+  have hnv : ¬ (passSortsW w roots).out = .valueError := by
+    intro hv
+    simp only [passW, hv, if_true] at hok
+    cases hok
+  have hw' : (passW w roots gls) = passSortsW w roots := by simp only [passW, hnv, if_false]
+  rw [hw'] at hok ⊢
+  exact ⟨rfl, pass_sorted_aux roots w hw hyp hdj hok⟩
+
+/-- **C12_passF_success_sorted**: the same for the full pass (names, checks): when `passF` ends normally, its containers
+    are those of `passW`, so every graph-like is sorted at the end of the pass. -/
+theorem C12_passF_success_sorted (w : FWorld) (hw : LinkedSet.WorldWF w.sw.rw)
+    (roots : List (Nat × List Nat)) (gls : List Nat)
+    (hgl : graphLikes w.sw (roots.map Prod.fst) = some gls) (hc : passConsB w roots = true)
+    (hyp : PassHyp w.sw roots) (hdj : passDisjB w.sw roots = true) (hok : (passF w roots).out = .ok) :
+    PassSorted (passF w roots).world.sw w.sw roots := by
+  obtain ⟨_, _, _, _, h5⟩ := C12_passF_refines_passW w roots gls hgl hc
+  obtain ⟨hto, hwd, _⟩ := h5 (by rw [hok]; decide)
+  have hokW : (passW w.sw roots gls).out = .ok := (FOut.toS_ok hto).1.1 hok
+  rw [hwd]
+  exact (C12_pass_success_sorted w.sw hw roots gls hyp hdj hokW).2
+
 /-! ## non-vacuity -/
 
 /-- `g0 = [n1, n0]`, `n1` uses `n0` and owns the body `g1 = [n2]`, `n2` captures `n0` -/
@@ -1374,10 +1652,20 @@ example : (passSortsW exP [(0, [1, 0]), (2, [2])]).out = .valueError ∧
 example : (passW exP [(0, [1, 0]), (2, [2])] [0, 1, 2]).out = .valueError ∧
     (passW exP [(0, [1, 0]), (2, [2])] [0, 1, 2]).world.order 0 = [1, 0] := by decide
 example : (passW exP [(0, [1, 0])] [0, 1]).out = .ok := by decide
+/-- Part I: hypotheses and conclusions are inhabited (a pass over `exW` that succeeds; over `exP` it meets the cycle) -/
+example : passDisjB exP [(0, [1, 0]), (2, [2])] = true ∧ passDisjB exP [(0, [1, 0])] = true := by decide
+example : passConsB (exF false) [(0, [1, 0])] = true ∧ graphLikes (exF false).sw [0] = some [0, 1] := by decide
+example : (passF (exF false) [(0, [1, 0])]).out = .ok ∧ (passF (exF true) [(0, [1, 0])]).out = .refused := by decide
+example : passConsB ((exF false).setNode 0 {}) [(0, [1, 0])] = false := by decide
+example : (passW exW [(0, [1, 0])] [0, 1]).world.order 0 = [0, 1] ∧ sortModel ex1 = some [(0, [0, 1]), (1, [2])] := by decide
 
 example : Heap.isHeap (Heap.heapify [5, 3, 9, 1, 7]) = true ∧ Heap.heapify [5, 3, 9, 1, 7] = [1, 3, 9, 5, 7] := by decide
 example : Heap.heappop [1, 3, 9, 5, 7] = (some 1, [3, 5, 9, 7]) := by decide
 example : Heap.heappush [3, 5, 9, 7] 2 = [2, 3, 9, 7, 5] := by decide
 example : Heap.isHeap [3, 1] = false := by decide
+example : Heap.runHeap (Heap.heapify [5, 3, 9]) [none, some 1, none, none, none, none] =
+    [some 3, some 1, some 5, some 9, none] := by decide
+example : Heap.runAbs [5, 3, 9] [none, some 1, none, none, none, none] = [some 3, some 1, some 5, some 9, none] := by decide
+example : sortHeap ex1 = some [(0, [0, 1]), (1, [2])] ∧ sortHeap ex2 = none := by decide
 
 end IrVerif.Sort
